@@ -440,6 +440,38 @@ func dirMailboxRetry(c *Ctx) {
 		if ha.OutboxCount() != 0 || ha.SentCount() != len(want) {
 			c.Violate("C02:dir-not-marked-sent", fmt.Sprintf("sender outbox=%d sent=%d after the clean retry, want 0/%d", ha.OutboxCount(), ha.SentCount(), len(want)), rep)
 		}
+		// a LATER message whose MID differs from a delivered one only in letter case is a different message
+		if tw := swapCase(lastMid); tw != lastMid && want[tw] == nil {
+			m := genMessage(c.Rng, "LA5NTA", "N0CALL", 800)
+			m.Header.Del("Cc")
+			m.Header.Set("Mid", tw)
+			data, _ := m.Bytes()
+			ha.AddOut(m)
+			ca, cb := newMemPipe(nil, nil)
+			x := fbb.NewSession("LA5NTA", "N0CALL", "", mailbox.NewDirHandler(da, false))
+			y := fbb.NewSession("N0CALL", "LA5NTA", "", mailbox.NewDirHandler(db, false))
+			x.SetLogger(log.New(io.Discard, "", 0))
+			y.SetLogger(log.New(io.Discard, "", 0))
+			y.IsMaster(true)
+			done := make(chan error, 2)
+			go func() { _, e := x.Exchange(ca); done <- e }()
+			go func() { _, e := y.Exchange(cb); done <- e }()
+			<-done
+			<-done
+			found := false
+			inbox2, _ := hb.Inbox()
+			for _, im := range inbox2 {
+				if im.MID() == tw {
+					im.Header.Del("X-Unread")
+					im.Header.Del("X-FilePath")
+					d2, _ := im.Bytes()
+					found = bytes.Equal(d2, data)
+				}
+			}
+			if !found && ha.OutboxCount() == 0 {
+				c.Violate("C02:dir-sent-but-not-stored:case-twin", fmt.Sprintf("message %q (a later message whose MID differs from the delivered %q only in letter case) left the sender's outbox but is not in the receiver's inbox", tw, lastMid), rep)
+			}
+		}
 		os.RemoveAll(da)
 		os.RemoveAll(db)
 		c.Res.Distribution["dir-mailbox-retry"]++
